@@ -324,7 +324,7 @@ Proof.
   assert (RC : brel (if upper then s1 else s0) (if upper then c1 else c0)) by now destruct upper.
   destruct (if upper then s1 else s0) as [s|] eqn:ES, (if upper then c1 else c0) as [c|];
     cbn [brel] in RC; try contradiction; [|destruct s; contradiction|cbn; auto].
-  destruct s as [?|?|?|?|?|m|?]; try contradiction. destruct RC as [I A].
+  destruct s as [?|?|?|?|?|m|?|?]; try contradiction. destruct RC as [I A].
   unfold invb in I. rewrite absb_eq in A.
   assert (CS : exists full rest fl, c = CStr full rest fl) by (rewrite <- A; unfold abs_rd; eauto).
   destruct CS as [full [rest [fl CS]]].
